@@ -36,8 +36,12 @@ RankA == 1 + ((P.seed * 7919 + 4001) % 10005)
 RankB == (P.seed * 101) % 10007
 Rank(u) == (u * RankA + RankB) % 10007       \* injective on 1..10006 (10007 is prime)
 
+\* the core in rank order, computed once; Pick filters it (sets reaching outside the core - several tokens with
+\* the spelling of one literal - are taken in TLC's own order)
+CoreOrder == TLCEval(SortSeq([i \in 1..P.ncore |-> i], LAMBDA a, b : Rank(a) < Rank(b)))
 Pick(S, r) == IF Cardinality(S) <= r THEN S
-              ELSE LET q == SortSeq(SetToSeq(S), LAMBDA a, b : Rank(a) < Rank(b)) IN {q[i] : i \in 1..r}
+              ELSE LET q == IF S \subseteq Core THEN SelectSeq(CoreOrder, LAMBDA u : u \in S) ELSE SetToSeq(S)
+                   IN {q[i] : i \in 1..r}
 
 -----------------------------------------------------------------------------
 (* Index of the universe.                                                   *)
@@ -131,6 +135,7 @@ ASSUME LawMatching ==
      \A l \in Cover(p) : LET toks == [i \in 1..Len(l) |-> U[l[i]]] IN
         /\ (MatchGreedy(p, toks, V) => MatchExists(p, toks, V))
         /\ (MatchGreedy(p, toks, V) = (Progress(p, toks, V, 1, 1) = Len(p)))
+        /\ (toks # <<>> => PassesFirst(p, toks, V) = (Progress(p, toks, V, 1, 1) >= 1))
         /\ (Len(toks) >= Len(p) => MatchGreedy(p, toks, V) = MatchGreedy(p, toks \o <<U[1]>>, V))
         /\ (Len(toks) >= Len(p) => MatchExists(p, toks, V) = MatchExists(p, toks \o <<U[1]>>, V))
         /\ (Len(p) = 1 /\ p[1].k = "neg" /\ Len(toks) = 1 =>
